@@ -298,6 +298,22 @@ fn meshes_and_clouds(rng: &mut Rng) {
         let (c0, c1) = (mesh.surf_closest_to(&q), moved.surf_closest_to(&(t * q)));
         let (d0, d1) = ((c0.point - q).norm(), (c1.point - t * q).norm());
         v.require((d0 - d1).abs() <= tol, "mesh.distance_invariant", || format!("{d0} vs {d1}"));
+        // the tolerance projection takes the frame of the query as an argument: a point given in another frame together
+        // with the motion into the mesh frame is accepted or rejected like the moved point itself
+        if !tiny {
+            let raw = t.inverse() * q;
+            let max_angle = rng.range(0.1, 1.5);
+            let cap = d0 * rng.range(1.1, 2.0) + 1e-6;
+            let (a, b) = (mesh.project_with_tol(&raw, cap, max_angle, Some(&t)).map(|r| r.1), mesh.project_with_tol(&q, cap, max_angle, None).map(|r| r.1));
+            // (off the borderline of the angle test, where the two evaluations may round apart)
+            let borderline = c0.normal.into_inner().angle(&(q - c0.point));
+            // (and only where the closest point is inside ONE face: on an edge between faces of different normals the
+            // last bit of the query decides which face answers, and the two frames differ in the last bits)
+            let inside_one_face = matches!(mesh.project_with_max_dist(&q, cap), Some((_, _, parry3d_f64::shape::TrianglePointLocation::OnFace(_, bc))) if bc.iter().all(|x| *x > 1e-6));
+            if inside_one_face && (borderline - max_angle).abs() > 1e-6 && (borderline - (std::f64::consts::PI - max_angle)).abs() > 1e-6 {
+                v.require(a == b, "mesh.project_with_tol_does_not_depend_on_the_frame_of_the_query", || format!("given in another frame: {a:?}, given in the mesh frame: {b:?} (angle to the face normal {borderline}, limit {max_angle})"));
+            }
+        }
         for mode in [0, 1] {
             let m = |k: i32| if k == 0 { DistMode::ToPoint } else { DistMode::ToPlane };
             let (a, b) = (mesh.measure_point_deviation(&q, m(mode)).value(), moved.measure_point_deviation(&(t * q), m(mode)).value());
